@@ -1539,7 +1539,9 @@ fn unsafe_inventory(cx: &mut Ctx) {
     }
     if let Ok(nl) = sm::load(&cx.repo, "vendored/src/source_location/newlines.rs") {
         let t = sm::tsx(&nl.file);
-        if t.contains("matchmemchr2(b'\\n',b'\\r',bytes){Some(position)=>{") && t.contains("unsafe{*bytes.get_unchecked(position)}") {
+        let re = regex::Regex::new(r"(?:matchmemchr2\(b'\\n',b'\\r',bytes\)\{Some\((\w+)\)=>|let(\w+)=memchr2\(b'\\n',b'\\r',bytes\)\?;)").unwrap();
+        let bound = re.captures(&t.text).and_then(|c| c.get(1).or(c.get(2)).map(|m| m.as_str().to_string()));
+        if bound.as_ref().map_or(false, |p| t.contains(&format!("unsafe{{*bytes.get_unchecked({})}}", p))) {
             cx.ok(rule, "find_newline: get_unchecked(position) with position = memchr2(.., bytes) on the same slice");
         } else {
             cx.fail(rule, &format!("{}/find_newline", rule), &nl.rel, "get_unchecked index is not the position memchr2 returned for the same slice");
